@@ -128,7 +128,7 @@ impl Property for C02 {
                         let mut class = format!("{}:closed-goal-ambiguous", base);
                         if sets.st.env_elaborated && trait_has_nonself_wc(&case.pg.program) {
                             class.push_str(":env-elaboration-nonself-wc");
-                        } else if sets.st.used_env && case.pg.program.traits.iter().any(|t| t.extra > 0) {
+                        } else if sets.st.used_env && env_existential(&case.pg.program) {
                             class.push_str(":env-with-trait-params");
                         } else if sets.st.used_env {
                             class.push_str(":uses-env");
